@@ -19,7 +19,7 @@ from .. import core, gen, history as hist, observers as ob, oracles, user
 ID = "C13"
 LEVEL = "fault_enumeration"
 RUNS = {"quick": 40, "thorough": 1200}
-WALL_CAP = {"quick": 280, "thorough": 3000}
+WALL_CAP = {"quick": 280, "thorough": 1500}
 EVALS_FROM_STATS = True
 RULE = (
     "case = seeded world brought to an indexed state (db create), then user edits (new notes "
